@@ -343,11 +343,11 @@ func checkC17(c *Ctx, w *World) {
 		}
 	}
 	c.check(okClone && nCfgStores >= 1, "C17.clone", "initializeConfig works on its own copy", p.pos(ic.Pos()), "gb.cfg is a fresh wrapper around a fresh message or proto.Clone(caller's ApiConfig); defaults are stored into that copy; no balancer field aliases the caller's object", "the balancer mutates or aliases the caller's configuration object"+func() string {
-			if aliasWhy != "" {
-				return ": " + aliasWhy
-			}
-			return ""
-		}())
+		if aliasWhy != "" {
+			return ": " + aliasWhy
+		}
+		return ""
+	}())
 
 	// ---- C17.once
 	for _, f := range []string{"cfg", "methodCfg", "unresponsiveDetection"} {
